@@ -1525,7 +1525,7 @@ def _gen_sketch(rng):
             "item_kind": rng.choice(ITEM_KINDS)}
 
 
-ITEM_KINDS = ["str", "str", "str", "tuple", "tuple", "tuple", "dataclass", "dataclass", "frozenset"]   # frozenset: recorded finding, kept rare
+ITEM_KINDS = ["str", "str", "tuple", "tuple", "dataclass", "frozenset", "frozenset"]
 
 
 import dataclasses as _dc  # noqa: E402
